@@ -47,9 +47,9 @@ def judge(out, behs, lines, found, prop):
     f28 = [f for f in vlib.known_findings(prop) if f["id"] == "F28"]
     if prop in ("C07", "C09"):
         for b, pos, rec in found["BAD8"]:
-            if has_and_then(behs[b]["stack"]) and f17:
+            if has_and_then(stack_at(behs[b], pos)) and f17:
                 out.known_finding("F17", f17[0]["what"])
-            elif has_vec_none(behs[b]["stack"]) and f28:
+            elif has_vec_none(stack_at(behs[b], pos)) and f28:
                 out.known_finding("F28", f28[0]["what"])
             else:
                 out.violation("stack %d: the composed collector publishes a summary below what its layers accept (events would be lost): hint=%s stack=%s"
@@ -69,6 +69,28 @@ def judge(out, behs, lines, found, prop):
             else:
                 out.violation("stack %d op %d: layers missed an emission after an unconsumed enabled pass: %s" % (b, pos, json.dumps(rec)[:400]),
                               {"behaviour": behs[b], "failing_step": pos})
+
+
+def stack_at(beh, pos):
+    """the stack as it is at trace line `pos` of the behaviour (reset = 0, build = 1, step i = i + 2): swap elements carry
+    their current state"""
+    state = {}
+    for st in beh["steps"][:max(0, pos - 1)]:
+        if st.get("op") == "swap":
+            state[st["id"]] = st["on"]
+    if not state:
+        return beh["stack"]
+
+    def go(e):
+        if isinstance(e, dict):
+            e = {k: go(v) for k, v in e.items()}
+            if e.get("e") == "swap" and e.get("id") in state:
+                e["on"] = state[e["id"]]
+            return e
+        if isinstance(e, list):
+            return [go(x) for x in e]
+        return e
+    return go(beh["stack"])
 
 
 def has_and_then(elems):
